@@ -162,8 +162,11 @@ def _scores(tier):
             notes.append(("%sw" % pid, start + bar, bar * 2, "G", None, 1 + sh, 2, 1))
         if grace:
             graces.append(("%sg" % pid, start + bar // 2, "B", None, 4 + sh, 1, 1, "%sb" % pid))
+        # (a mark that is not a whole number, one whose quarter tempo does not divide a minute evenly, one on a doubly dotted unit)
+        tempi = [(0, 63.5, "q"), (start + bar, 60, "q."), (start + 2 * bar, 44, "e..")]
         part = G.build_part(pid, divs, ts=((0, ts[0], ts[1]),), notes=notes, ties=ties, graces=graces, measures=meas, key=(1, "major"),
-                            extra=(lambda p, b: (p.add(sc.Tempo(90, "q"), 0), p.add(sc.Tempo(60, "q."), start + bar), p.add(sc.Tempo(44, "e.."), start + 2 * bar))))
+                            extra=(lambda p, b: [p.add(sc.Tempo(bpm, unit), t) for t, bpm, unit in tempi]))
+        part._verif_tempi = tempi   # what was asked for, kept apart from the objects the library holds
         return part
 
     out.append(("divs1", lambda: G.simple_score([one(1, tie=False)])))
@@ -319,6 +322,11 @@ def _read_file(mf):
     return notes, metas
 
 
+def _qpm_of(tp):
+    unit = (tp.unit or "q").strip()
+    return Fraction(tp.bpm) * S.note_value(unit.rstrip(".")) * S.dot_multiplier(unit.count("."))
+
+
 def bounded(b):
     import mido
     import partitura as pt
@@ -408,8 +416,12 @@ def bounded(b):
                                 later = [x for x in p.iter_all(sc.TimeSignature) if x.start.t > tsg.start.t]
                                 if not has(t, int(mbeats), tsg.beat_type) or (not later and not has(t_end, tsg.beats, tsg.beat_type)):
                                     okm, whatm = False, "pickup of %s beats under %d/%d: expected %s/%d at tick %s and %d/%d at tick %s" % (mbeats, tsg.beats, tsg.beat_type, mbeats, tsg.beat_type, t, tsg.beats, tsg.beat_type, t_end)
-                for tp in p.iter_all(sc.Tempo):
-                    t = mf.ticks_per_beat * (O.quarter_pos(p, tp.start.t) - ftp)
+                class _T:
+                    def __init__(self, t, bpm, unit):
+                        self.t, self.bpm, self.unit = t, bpm, unit
+                asked = [_T(*x) for x in getattr(p, "_verif_tempi", [(tp.start.t, tp.bpm, tp.unit) for tp in p.iter_all(sc.Tempo)])]
+                for tp in asked:
+                    t = mf.ticks_per_beat * (O.quarter_pos(p, tp.t) - ftp)
                     if not any(m.type == "set_tempo" and tk == t and tr == 0 for (tr, tk, m) in metas):
                         okm, whatm = False, "tempo mark not in the first track at tick %s" % t
                     # the mark's beat unit counts: q. = 60 is 90 quarters per minute
@@ -430,6 +442,23 @@ def bounded(b):
             shift = min(w[0] for w in want)
             want_q = sorted((round(float((w[0] - shift) / mf.ticks_per_beat), 6), round(float((w[1] - w[0]) / mf.ticks_per_beat), 6), w[2]) for w in want)
             b.case("import/same_onset_duration_pitch_in_quarters", got_q == want_q, case, "re-imported %r, expected %r" % (got_q[:10], want_q[:10]))
+            # the tempo marks come back at their positions with their values (a file holds whole microseconds per quarter: 0.01 qpm)
+            if ana == "shift" and all(hasattr(p, "_verif_tempi") for p in score.parts) and len(set(repr(p._verif_tempi) for p in score.parts)) == 1:
+                p0 = score.parts[0]
+                w_tm = sorted((round(float(O.quarter_pos(p0, t) - O.quarter_pos(p0, p0.first_point.t)), 6), float(Fraction(bpm) * S.note_value(u.rstrip(".")) * S.dot_multiplier(u.count("."))))
+                              for t, bpm, u in p0._verif_tempi)
+                bad_tm, seen_tm = None, 0
+                for pp in back.parts:
+                    # (the marks of a file stand in its first track: they come back on the part read from it, at least on one part)
+                    if not list(pp.iter_all(sc.Tempo)):
+                        continue
+                    seen_tm += 1
+                    g_tm = sorted((round(float(O.quarter_pos(pp, t.start.t) - O.quarter_pos(pp, pp.first_point.t)), 6), float(_qpm_of(t))) for t in pp.iter_all(sc.Tempo))
+                    if len(g_tm) != len(w_tm) or any(a_[0] != b_[0] or abs(a_[1] - b_[1]) > 0.01 for a_, b_ in zip(g_tm, w_tm)):
+                        bad_tm = "re-imported part %s has the tempo marks (quarters from the start, quarters per minute) %r, written %r" % (pp.id, g_tm, w_tm)
+                if not seen_tm:
+                    bad_tm = "no re-imported part has a tempo mark, written %r" % (w_tm,)
+                b.case("import/tempo_marks_at_their_positions_with_their_values", bad_tm is None, case, bad_tm or "")
             # each part keeps its own time signatures where the mode keeps the parts apart (0, 1, 3: one part per part)
             if mode in (0, 1, 3) and len(back.parts) == len(score.parts) and ana == "shift":
                 def tsl(p):
